@@ -342,6 +342,13 @@ func regexDecompose(fc *FnCtx, pat string, subject Term) (*regexDecomp, error) {
 	if !end {
 		post := fc.freshConst("rpost", SString)
 		parts = append(parts, post.S)
+		// Greedy tail: when the pattern ends in a greedy repetition of a
+		// single-character class (".*", "[0-9]+" ...), the match extends as
+		// far as that class allows: what follows the match is empty or starts
+		// with a character outside the class.
+		if cls, ok := greedyTailClass(body); ok {
+			d.facts = append(d.facts, T(SBool, "(or (= %s \"\") (not (str.in_re (str.at %s 0) %s)))", post.S, post.S, cls))
+		}
 	}
 	if len(parts) == 1 {
 		d.facts = append(d.facts, Eq(subject, m0c))
@@ -349,4 +356,48 @@ func regexDecompose(fc *FnCtx, pat string, subject Term) (*regexDecomp, error) {
 		d.facts = append(d.facts, T(SBool, "(= %s (str.++ %s))", subject.S, strings.Join(parts, " ")))
 	}
 	return d, nil
+}
+
+// greedyTailClass: the character class of a greedy star/plus that ends the
+// pattern (looking through captures and concatenations).
+func greedyTailClass(re *syntax.Regexp) (string, bool) {
+	for {
+		switch re.Op {
+		case syntax.OpCapture:
+			re = re.Sub[0]
+			continue
+		case syntax.OpConcat:
+			if len(re.Sub) == 0 {
+				return "", false
+			}
+			re = re.Sub[len(re.Sub)-1]
+			continue
+		case syntax.OpStar, syntax.OpPlus:
+			if re.Flags&syntax.NonGreedy != 0 {
+				return "", false
+			}
+			sub := re.Sub[0]
+			for sub.Op == syntax.OpCapture {
+				sub = sub.Sub[0]
+			}
+			switch sub.Op {
+			case syntax.OpCharClass, syntax.OpAnyChar, syntax.OpAnyCharNotNL:
+				l, err := reLang(sub)
+				if err != nil {
+					return "", false
+				}
+				return l, true
+			case syntax.OpLiteral:
+				if len(sub.Rune) == 1 && sub.Flags&syntax.FoldCase == 0 {
+					l, err := reLang(sub)
+					if err != nil {
+						return "", false
+					}
+					return l, true
+				}
+			}
+			return "", false
+		}
+		return "", false
+	}
 }
